@@ -250,6 +250,9 @@ pub struct Acc {
     /// w = d_left/d_right - d_right/d_left (each leaf serves two coordinates), real minus reference
     /// (count, sum, sum of squares)
     pub sib: [f64; 3],
+    /// lag spectrum of the standardised Gram-Schmidt coordinates inside one signature:
+    /// lag[L] = sum over signatures and i of z_i * z_(i+L), L = 1 .. 2n-1 (index 0 unused)
+    pub lag: Vec<f64>,
 }
 
 const ACC_HEAD: usize = 19;
@@ -274,6 +277,7 @@ impl Acc {
             cx: [0.0; 3],
             l1: [0.0; 3],
             sib: [0.0; 3],
+            lag: vec![0.0; dirs / 2],
         }
     }
     fn to_blob(&self) -> Vec<u8> {
@@ -291,7 +295,7 @@ impl Acc {
         for v in self.cx.iter().chain(self.l1.iter()).chain(self.sib.iter()) {
             b.extend_from_slice(&v.to_le_bytes());
         }
-        for v in self.sum.iter().chain(self.sq.iter()).chain(self.cross.iter()).chain(self.dsq_sum.iter()).chain(self.dsq_sq.iter()) {
+        for v in self.sum.iter().chain(self.sq.iter()).chain(self.cross.iter()).chain(self.dsq_sum.iter()).chain(self.dsq_sq.iter()).chain(self.lag.iter()) {
             b.extend_from_slice(&v.to_le_bytes());
         }
         b
@@ -323,6 +327,9 @@ impl Acc {
         }
         for i in 0..c {
             self.cross[i] += f(ACC_HEAD + 2 * d + i);
+        }
+        for i in 0..self.lag.len() {
+            self.lag[i] += f(ACC_HEAD + 4 * d + c + i);
         }
     }
 }
@@ -512,6 +519,19 @@ fn run_chunk<V: Variant, W: Variant>(seed: u64, run: u64, key_index: usize, chun
                             acc.dn_sq += dn * dn;
                         }
                         let gs = &p[2 * n..];
+                        {
+                            // every lag: randomness used twice inside one signature shows as a dependence between
+                            // coordinates a fixed distance apart in sampling (= reversed leaf) order
+                            let zs: Vec<f64> = gs.iter().map(|v| v / V::SIGMA).collect();
+                            let m2 = zs.len();
+                            for l in 1..m2 {
+                                let mut t = 0.0;
+                                for i in 0..m2 - l {
+                                    t += zs[i] * zs[i + l];
+                                }
+                                acc.lag[l] += t;
+                            }
+                        }
                         for lag in 1..=3usize {
                             for i in 0..2 * n - lag {
                                 acc.cross[(lag - 1) * 2 * n + i] += gs[i] * gs[i + lag];
@@ -570,6 +590,82 @@ fn run_chunk<V: Variant, W: Variant>(seed: u64, run: u64, key_index: usize, chun
     }
     out.stats = st;
     out
+}
+
+/// Key volume: the law is promised for every key that key generation can return. Many fresh keys, one
+/// signature each: the key's Gram-Schmidt norm (from the key bytes, harness arithmetic) must respect the
+/// bound of key generation, 1.17 sqrt(q) - otherwise its narrowest leaves are narrower than sigma_min, which
+/// the sampler is not specified for - and the sampler must never be entered with a width outside
+/// [sigma_min, sigma_max].
+fn key_volume_run<V: Variant>(seed: u64, run: u64, count: usize) -> RunOutcome {
+    let mut rng = Prng::new(report::run_seed(seed, "C10keys", run));
+    let mut out = RunOutcome::default();
+    out.stats.inc("runs");
+    out.stats.inc("runs.key_volume");
+    let n = V::N;
+    let limit = 1.17 * (12289f64).sqrt();
+    for _ in 0..count {
+        let ks = rng.seed32();
+        let (sk, pk) = match crate::world::keygen_sim::<V>(ks, None, None).0 {
+            Ok(k) => k,
+            Err(_) => continue, // liveness of key generation is C15's / C05's subject
+        };
+        out.stats.evaluations += 1;
+        out.stats.inc(&format!("key_volume.keys.{}", n));
+        let basis = match Basis::from_bytes(n, &V::sk_to_bytes(&sk), &V::pk_to_bytes(&pk)) {
+            Ok(b) => b,
+            Err(_) => continue,
+        };
+        let gmax = basis.gs_norms.iter().cloned().fold(0.0, f64::max);
+        let doc = json!({"kind": "key_volume", "n": n, "key_seed_hex": hex(&ks)});
+        if gmax > limit * (1.0 + 1e-9) {
+            out.violations.push(Violation {
+                property: PROP,
+                class: format!("a generated key{} has Gram-Schmidt norm above 1.17 sqrt(q): its narrowest leaves are narrower than sigma_min", n),
+                detail: format!("key seed {}: max Gram-Schmidt norm {:.4} > {:.4}", hex(&ks), gmax, limit),
+                replay: doc,
+                run,
+            });
+            break;
+        }
+        let (r, trace) = crate::world::sign_sim::<V>(&sk, b"one signature per key", &crate::world::SignPlan::uniform(rng.next_u64()), None);
+        if r.is_ok() && trace.sigma_out_of_range > 0 {
+            out.violations.push(Violation {
+                property: PROP,
+                class: format!("sign{} enters the sampler with a width outside [sigma_min, sigma_max]", n),
+                detail: format!("key seed {}: {} sampler calls out of range (max Gram-Schmidt norm of the key {:.4})", hex(&ks), trace.sigma_out_of_range, gmax),
+                replay: doc,
+                run,
+            });
+            break;
+        }
+        out.stats.distinct.insert(hash_bytes(0x6b, &ks));
+    }
+    out
+}
+
+fn replay_key_volume(doc: &Value) -> Option<String> {
+    let n = doc.get("n")?.as_u64()? as usize;
+    let ks: [u8; 32] = crate::rng::unhex(doc.get("key_seed_hex")?.as_str()?)?.try_into().ok()?;
+    fn go<V: Variant>(ks: [u8; 32]) -> Option<String> {
+        let n = V::N;
+        let (sk, pk) = crate::world::keygen_sim::<V>(ks, None, None).0.ok()?;
+        let basis = Basis::from_bytes(n, &V::sk_to_bytes(&sk), &V::pk_to_bytes(&pk)).ok()?;
+        let gmax = basis.gs_norms.iter().cloned().fold(0.0, f64::max);
+        if gmax > 1.17 * (12289f64).sqrt() * (1.0 + 1e-9) {
+            return Some(format!("a generated key{} has Gram-Schmidt norm above 1.17 sqrt(q): its narrowest leaves are narrower than sigma_min", n));
+        }
+        let (r, trace) = crate::world::sign_sim::<V>(&sk, b"one signature per key", &crate::world::SignPlan::uniform(1), None);
+        if r.is_ok() && trace.sigma_out_of_range > 0 {
+            return Some(format!("sign{} enters the sampler with a width outside [sigma_min, sigma_max]", n));
+        }
+        None
+    }
+    if n == 512 {
+        go::<V512>(ks)
+    } else {
+        go::<V1024>(ks)
+    }
 }
 
 pub struct Ctx {
@@ -662,6 +758,10 @@ fn batch(rep: &mut Report, tier: Tier, seed: u64) -> Result<(), String> {
     let ctx = context(tier, seed)?;
     let total = (ctx.p512.keys.len() + ctx.k1024) as u64 * ctx.chunks;
     let out = report::parallel_runs(total, report::workers(), |run| dispatch(&ctx, seed, run));
+    rep.absorb(out);
+    // key volume: 16 x 12 Falcon-512 keys and 6 x 4 Falcon-1024 keys in quick (thorough x 8)
+    let (r512, r1024) = if tier == Tier::Quick { (16u64, 6u64) } else { (128, 48) };
+    let out = report::parallel_runs(r512 + r1024, report::workers(), |run| if run < r1024 { key_volume_run::<V1024>(seed, run, 4) } else { key_volume_run::<V512>(seed, run, 12) });
     rep.absorb(out);
     Ok(())
 }
@@ -824,6 +924,39 @@ fn evaluate(rep: &mut Report) {
         if a.over_bound > 0 {
             // already reported by the run itself
         }
+        // lag spectrum inside a signature: every lag, and sliding windows of 32 lags
+        let (mut lag_worst, mut lag_at, mut win_worst, mut win_at) = (0.0f64, 0usize, 0.0f64, 0usize);
+        {
+            let m2 = 2 * n;
+            let zl: Vec<f64> = (0..m2).map(|l| if l == 0 { 0.0 } else { a.lag[l] / (m * (m2 - l) as f64).sqrt() }).collect();
+            for l in 1..m2 {
+                if zl[l].abs() > lag_worst {
+                    lag_worst = zl[l].abs();
+                    lag_at = l;
+                }
+            }
+            let w = 32usize;
+            let mut run: f64 = zl[1..=w.min(m2 - 1)].iter().sum();
+            for l in 1..m2.saturating_sub(w) {
+                let z = run.abs() / (w as f64).sqrt();
+                if z > win_worst {
+                    win_worst = z;
+                    win_at = l;
+                }
+                run += zl[l + w] - zl[l];
+            }
+        }
+        if let Some(Value::Object(o)) = table.last_mut() {
+            o.insert("lag_spectrum".into(), json!({"worst_single_lag_z": (lag_worst * 100.0).round() / 100.0, "at_lag": lag_at, "worst_window32_z": (win_worst * 100.0).round() / 100.0, "window_from_lag": win_at}));
+        }
+        if lag_worst > 7.5 || win_worst > 7.5 {
+            alarm(
+                "coordinates of one signature depend on each other",
+                format!("standardised Gram-Schmidt coordinates a fixed distance apart (leaf order): lag {} at {:.1} standard errors; lags {}..{} together at {:.1}", lag_at, lag_worst, win_at, win_at + 31, win_worst),
+                rep,
+            );
+            continue;
+        }
         // dependence between signatures (independent spherical Gaussians: mean 0, variance 1/2n)
         let dep_z = |c: &[f64; 3]| -> f64 {
             if c[0] < 200.0 {
@@ -957,6 +1090,7 @@ fn evaluate(rep: &mut Report) {
 
 pub fn replay(doc: &Value) -> Option<String> {
     match doc.get("kind")?.as_str()? {
+        "key_volume" => replay_key_volume(doc),
         "law_eval" => {
             let seed = doc.get("seed")?.as_u64()?;
             let tier = if doc.get("tier")?.as_str()? == "thorough" { Tier::Thorough } else { Tier::Quick };
@@ -983,7 +1117,7 @@ pub fn check(tier: Tier, seed: u64) -> i32 {
         }
     }
     evaluate(&mut rep);
-    rep.rule = "a case is one signature in the history of one key: K keys (selected from 5K candidates: the one with the longest (g,-f), the one with the largest Gram-Schmidt norm, then in order; every other key has each of its runs warmed up by one signature with a key of the other variant) x M signatures over distinct messages under healthy simulated entropy (E1), signed by 1-4 baton-scheduled threads sharing the key; for each signature (s1, s2) is recovered with the harness's own arithmetic and projected on the 2n normalised secret-basis rows and the 2n Gram-Schmidt (ffLDL leaf) directions; every signature is non-trivial; distinct = distinct signature bytes (plus one per key whose statistics were evaluated)".into();
+    rep.rule = "a case is one signature in the history of one key: K keys (selected from 5K candidates: the one with the longest (g,-f), the one with the largest Gram-Schmidt norm, then in order; every other key has each of its runs warmed up by one signature with a key of the other variant) x M signatures over distinct messages under healthy simulated entropy (E1), signed by 1-4 baton-scheduled threads sharing the key; for each signature (s1, s2) is recovered with the harness's own arithmetic and projected on the 2n normalised secret-basis rows and the 2n Gram-Schmidt (ffLDL leaf) directions; in addition 192 + 24 fresh keys (thorough x 8) sign once each: the key's Gram-Schmidt norm must respect 1.17 sqrt(q) and the sampler must never be entered with a width outside [sigma_min, sigma_max]; every signature is non-trivial; distinct = distinct signature bytes (plus one per key whose statistics were evaluated)".into();
     rep.assumptions = vec![
         "sigma from the specification (165.7366171829776 / 168.38857144654395)".into(),
         "alarms: mean ||s||^2/(2n sigma^2) outside 1 +- 0.006; pooled second moment of a direction class outside 1 +- 0.02 (widened to 7 standard deviations of that statistic, computed from the spectrum of the class's Gram operator, where that is larger); a single direction outside 1 +- 7*sqrt(2/M); a direction mean beyond 6 standard errors or over-dispersed direction means; the sum of M*r^2 over neighbouring Gram-Schmidt coordinates (lags 1-3, leaf order) more than 8 standard deviations above its expectation; any ||s||^2 above floor(beta^2); fixed default seed".into(),
